@@ -103,8 +103,10 @@ pub fn generate(seed: u64, tier: Tier) -> Case {
                     // What the second declaration looks like: a body of its own, the very
                     // same declaration again, or a bare `type X;` / `type X {}` (which, placed
                     // at random, comes before or after the real one).
-                    match rng.below(4) {
+                    match rng.below(5) {
                         0 => {}
+                        // The same name in its raw spelling: `type r#Foo` next to `type Foo`.
+                        4 => it.name = format!("r#{}", it.name),
                         1 => {
                             it = p.items[t].clone();
                             if let ItemKind::Type { impl_funcs, .. } = &mut it.kind {
@@ -125,7 +127,11 @@ pub fn generate(seed: u64, tier: Tier) -> Case {
             2 if !owners.is_empty() => {
                 let t = *rng.pick(&owners);
                 let m = p.items[t].module;
-                let name = format!("{}Vftable", p.items[t].name);
+                let name = if rng.chance(1, 4) {
+                    format!("r#{}Vftable", p.items[t].name)
+                } else {
+                    format!("{}Vftable", p.items[t].name)
+                };
                 injected = Some((new_type(name, m, rng.range(1, 64)), "user_type_named_like_vftable"));
             }
             3 if !types.is_empty() => {
@@ -140,7 +146,9 @@ pub fn generate(seed: u64, tier: Tier) -> Case {
                 // Two extern values with one name: two accessors `get_<name>`.
                 let m = rng.below(p.modules.len());
                 let name = format!("dupval{m}");
+                let raw_second = rng.chance(1, 4);
                 for a in 0..2 {
+                    let name = if a == 1 && raw_second { format!("r#{name}") } else { name.clone() };
                     let k = p.modules[m].extern_values.len();
                     p.modules[m].extern_values.push(ExternValue {
                         vis: true,
@@ -601,11 +609,11 @@ fn check_build(case: &Case, w: usize, r: &RunResult) -> Result<(), (String, Stri
     let mut owned_names: BTreeSet<String> = crate::model::BUILTINS.iter().map(|s| s.to_string()).collect();
     for (_, _, m) in &parsed.modules {
         for d in &m.definitions {
-            owned_names.insert(d.name.as_str().to_string());
+            owned_names.insert(crate::inventory::plain_ident(d.name.as_str()));
             // `<T>Vftable` belongs to `T` whether or not `T` declares a vftable block: there is
             // one vftable struct for every type that declares one, none for the others.
             if let pyxis::grammar::ItemDefinitionInner::Type(_) = &d.inner {
-                owned_names.insert(format!("{}Vftable", d.name.as_str()));
+                owned_names.insert(format!("{}Vftable", crate::inventory::plain_ident(d.name.as_str())));
             }
         }
         for (n, _) in &m.extern_types {
@@ -631,38 +639,53 @@ fn check_build(case: &Case, w: usize, r: &RunResult) -> Result<(), (String, Stri
         for d in &m.definitions {
             match &d.inner {
                 pyxis::grammar::ItemDefinitionInner::Type(t) => {
-                    want_structs.insert(d.name.as_str().to_string());
+                    want_structs.insert(crate::inventory::plain_ident(d.name.as_str()));
                     if t.statements.iter().any(|s| s.field.is_vftable()) {
-                        want_structs.insert(format!("{}Vftable", d.name.as_str()));
+                        want_structs.insert(format!("{}Vftable", crate::inventory::plain_ident(d.name.as_str())));
                     }
                 }
                 pyxis::grammar::ItemDefinitionInner::Enum(_) => {
-                    want_enums.insert(d.name.as_str().to_string());
+                    want_enums.insert(crate::inventory::plain_ident(d.name.as_str()));
                 }
             }
         }
         let want_getters: BTreeSet<String> = m
             .extern_values
             .iter()
-            .map(|ev| format!("get_{}", ev.name.as_str()))
+            .map(|ev| format!("get_{}", crate::inventory::plain_ident(ev.name.as_str())))
             .collect();
 
-        // What the rust prologues/epilogues contribute.
+        // What the rust prologues/epilogues contribute: read from the module's text by the
+        // harness's own token-level reader, so that an entry the parser loses is still expected.
         let mut pro_items: Vec<String> = vec![];
         let mut epi_items: Vec<String> = vec![];
         let mut foreign_items: Vec<String> = vec![];
-        for b in &m.backends {
-            let is_rust = b.name.as_str() == "rust";
-            for (text, sink) in [(&b.prologue, 0), (&b.epilogue, 1)] {
-                let Some(text) = text else { continue };
-                let items = items_of(text).map_err(|e| ("vacuous".to_string(), e))?;
-                if !is_rust {
-                    foreign_items.extend(items);
-                } else if sink == 0 {
-                    pro_items.extend(items);
-                } else {
-                    epi_items.extend(items);
-                }
+        let (rel, _, _) = &parsed.modules[*mi];
+        let source = world
+            .module_files()
+            .into_iter()
+            .find(|(p, _)| p == rel)
+            .map(|(_, b)| b.lossy())
+            .unwrap_or_default();
+        let entries = crate::inventory::backend_entries(&source)
+            .ok_or_else(|| ("vacuous".to_string(), format!("{rel}: backend blocks not readable")))?;
+        let by_parser: usize = m
+            .backends
+            .iter()
+            .map(|b| b.prologue.is_some() as usize + b.epilogue.is_some() as usize)
+            .sum();
+        if by_parser > entries.len() {
+            // The reader missed something the parser saw: do not judge with half the picture.
+            return Err(("vacuous".into(), format!("{rel}: backend reader found fewer entries than the parser")));
+        }
+        for e in &entries {
+            let items = items_of(&e.text).map_err(|e| ("vacuous".to_string(), e))?;
+            if e.backend != "rust" {
+                foreign_items.extend(items);
+            } else if e.is_prologue {
+                pro_items.extend(items);
+            } else {
+                epi_items.extend(items);
             }
         }
         let file_items = items_of(&text).map_err(|e| ("output-unparsable".to_string(), e))?;
@@ -802,7 +825,7 @@ pub fn evaluate(case: &Case, results: &[Vec<RunResult>], report: &mut CaseReport
                 for (_, mpath, m) in &parsed.modules {
                     let mut seen = BTreeSet::new();
                     for ev in &m.extern_values {
-                        if !seen.insert(ev.name.as_str()) {
+                        if !seen.insert(crate::inventory::plain_ident(ev.name.as_str())) {
                             c = Some(format!(
                                 "duplicate extern value `{}` in `{mpath}`",
                                 ev.name.as_str()
